@@ -166,6 +166,19 @@ func c13Monitor(st *engine.Step) {
 	}
 }
 
+// c13Model: a mailed token is spent by the verification it authorises.
+func c13Model(st *engine.Step) {
+	o := st.Obs
+	if o == nil || o.Req.Tag.Kind != "verify_end" {
+		return
+	}
+	if o.SessAfter[authboss.Session2FAAuthed] == "true" && o.SessBefore[authboss.Session2FAAuthed] != "true" {
+		if sec := st.Post.Truth.ByVal("vtok", o.Req.Tag.Secret); sec != nil && !sec.Dead {
+			sec.Dead, sec.Why, sec.Used = true, "used", true
+		}
+	}
+}
+
 func liveRC(w *world.World, pid, code string) bool {
 	if code == "" {
 		return false
@@ -359,7 +372,7 @@ func c13Scenarios(tier string) []engine.Scenario {
 						flows.Exec(s, w, flows.Login(s, "B1", U1, P1, true), "")
 						return w
 					},
-					Monitor: c13Monitor, Cover: c13Cover,
+					Model: c13Model, Monitor: c13Monitor, Cover: c13Cover,
 					Actions: c13Actions(emailReq, tier == "thorough"),
 				}
 				if emailReq {
@@ -368,6 +381,27 @@ func c13Scenarios(tier string) []engine.Scenario {
 				out = append(out, engine.Sharded(sc, 8)...)
 			}
 		}
+	}
+	// a session that already holds the e-mail authorisation: both kinds of enrolment interleaved
+	{
+		sc := engine.Scenario{
+			Name: "email-auth=true,pre-authorised", Depth: depth + 1,
+			Cfg: world.Config{Modules: []string{"auth", "remember", "logout", "totp2fa", "sms2fa", "recovery"}, EmailAuthRequired: true},
+			Init: func(s *world.Stack) *world.World {
+				w := world.NewWorld("B1", "B2")
+				flows.SeedAcct(s, w, flows.Acct{PID: U1, Password: P1})
+				flows.SeedAcct(s, w, flows.Acct{PID: U2, Password: P2, TOTPSecret: flows.TOTPSecrets[1], RecoveryCodes: []string{"ddddd-44444", "eeeee-55555"}})
+				flows.Exec(s, w, flows.Login(s, "B1", U1, P1, false), "")
+				flows.Exec(s, w, flows.VerifyStart(s, "B1", "totp"), "")
+				tok := w.Truth.Newest("vtok", U1, false)
+				flows.Exec(s, w, flows.VerifyEnd(s, "B1", "totp", tok.Val), "")
+				tok.Dead, tok.Used, tok.Why = true, true, "used"
+				return w
+			},
+			Model: c13Model, Monitor: c13Monitor, Cover: c13Cover,
+			Actions: c13Actions(true, false),
+		}
+		out = append(out, engine.Sharded(sc, 8)...)
 	}
 	// accounts that already have a factor: disabling, re-keying, from every session kind
 	for _, e500 := range []bool{false, true} {
@@ -385,7 +419,7 @@ func c13Scenarios(tier string) []engine.Scenario {
 				w.Browsers["B1"].Session["twofactor"] = "sms"
 				return w
 			},
-			Monitor: c13Monitor, Cover: c13Cover,
+			Model: c13Model, Monitor: c13Monitor, Cover: c13Cover,
 			Actions: c13Actions(false, tier == "thorough"),
 		}
 		out = append(out, engine.Sharded(sc, 8)...)
